@@ -49,7 +49,7 @@ RuleNames == {
     "C08.SilentAfterEnd", "C08.SlotFreed", "C08.EndsInTime",
     "C08.LimitReusable",
     "C10.NoPanic", "C10.NoBugError", "C10.BoundedBuffers",
-    "C12.KeyUnique", "C12.LimitRespected", "C12.TableAgrees", "C12.RouteAgrees", "C12.DeliverToNamed", "C12.NoEviction", "C12.DeadCleanup",
+    "C12.KeyUnique", "C12.LimitRespected", "C12.TableAgrees", "C12.RouteAgrees", "C12.DeliverToNamed", "C12.NoEviction", "C12.DeadCleanup", "C12.NoSpontaneousClose",
     "C13.AcceptFifo", "C13.BacklogBound", "C13.RefusedOnlyWhenFull", "C13.ExcessRefused", "C13.ResetMatches",
     "C13.AcceptReturnsMatched", "C13.AcceptCallOrder", "C13.PairOnce", "C13.ReleaseOnAbandon",
     "C18.NagleHold", "C18.NoHoldWhenOff", "C18.NagleDrain",
@@ -60,7 +60,7 @@ RuleNames == {
     "C19.TxBounded", "C19.WriteNotStuck" }
 
 EmptyFn == << >>
-NoMeta == [class |-> "", lat |-> 0, backlog |-> 32, path |-> 0]
+NoMeta == [class |-> "", lat |-> 0, backlog |-> 32, path |-> 0, cancelled |-> FALSE]
 NoPairs == [connected |-> {}, accepted |-> {}, acceptedN |-> 0]
 
 Init ==
@@ -98,7 +98,8 @@ Reset(r) ==
     /\ meta' = [class |-> IF Has(r.cfg, "info") /\ Has(r.cfg.info, "class") THEN r.cfg.info.class ELSE "",
                 lat |-> r.cfg.latency_us,
                 backlog |-> IF Has(r.cfg, "info") /\ Has(r.cfg.info, "backlog") THEN r.cfg.info.backlog ELSE 32,
-                path |-> IF Has(r.cfg, "info") /\ Has(r.cfg.info, "path_payload") THEN r.cfg.info.path_payload ELSE 0]
+                path |-> IF Has(r.cfg, "info") /\ Has(r.cfg.info, "path_payload") THEN r.cfg.info.path_payload ELSE 0,
+                cancelled |-> FALSE]      \* a socket of this run was cancelled by the script
     /\ eps' = EmptyFn /\ sendIdx' = EmptyFn /\ app' = EmptyFn /\ infl' = EmptyFn
     /\ sk' = EmptyFn /\ pairs' = NoPairs
     /\ last' = [tx |-> [k |-> <<>>], rx |-> EmptyFn]
@@ -240,6 +241,11 @@ TxEndpoint(r, h, k) ==
             <<"C06.NeverRetxAcked", IsRetx(e, s), R_C06_NeverRetxAcked(e, s)>>,
             <<"C17.NothingAfterFin", e.fin.seq >= 0 /\ e.fin.own, R_C17_NothingAfterFin(e, s)>> }
         fin == IF ~isFin THEN {} ELSE {
+            \* C12 "they do not evict or corrupt existing ones": a connection whose channel from the dispatcher is taken
+            \* away closes as if its application had asked for it - a first FIN that nobody asked for (no shutdown, not both
+            \* halves dropped, no FIN from the peer, no abort) is that symptom
+            <<"C12.NoSpontaneousClose", e.fin.seq < 0 /\ e.peerFin < 0 /\ ~abort /\ e.resetAt = 0,
+                                        e.shutAt >= 0 \/ (e.wDropped /\ e.rDropped)>>,
             \* (the FIN clauses are about an endpoint closing on its own initiative, or aborting)
             <<"C17.FinSeq", abort \/ e.peerFin < 0 \/ (e.fin.seq >= 0 /\ e.fin.own), R_C17_FinSeq(e, s, abort)>>,
             <<"C17.FinAfterData", ~abort /\ e.peerFin < 0 /\ e.fin.seq < 0, R_C17_FinAfterData(e)>> }
@@ -462,7 +468,8 @@ Disp(r) ==
 ---------------------------------------------------------------------------
 (* Application calls.                                                      *)
 Call(r) ==
-    /\ UNCHANGED <<run, now, meta, sendIdx, app, infl, pairs, last>> /\ NoJudge
+    /\ UNCHANGED <<run, now, sendIdx, app, infl, pairs, last>> /\ NoJudge
+    /\ meta' = IF r.op = "cancel" THEN [meta EXCEPT !.cancelled = TRUE] ELSE meta
     /\ (IF r.op = "accept" THEN SetSock(r.sock, AcceptCalled(Sock(r.sock), r.ep)) ELSE UNCHANGED sk)
     /\ IF r.ep \in DOMAIN app /\ Live(app[r.ep]) /\ r.op = "shutdown"
        THEN eps' = [eps EXCEPT ![app[r.ep]].shutAt = r.arg, ![app[r.ep]].stim = TRUE]
@@ -501,7 +508,12 @@ Ret(r) ==
                ELSE IF r.op = "connect" /\ r.res = "ok"
                THEN /\ NoJudge /\ UNCHANGED sk
                     /\ pairs' = [pairs EXCEPT !.connected = @ \cup {<<r.rl, (r.cid + 1) % 65536>>}]
-               ELSE /\ Judge(<<"", -1>>, { <<"C02.CompletesOk", meta.class \in {"fair-lossy", "loss-free"} /\ r.res = "err", FALSE>> })
+               ELSE /\ Judge(<<"", -1>>, {
+                          <<"C02.CompletesOk", meta.class \in {"fair-lossy", "loss-free"} /\ r.res = "err", FALSE>>,
+                          \* C13 "an abandoned or timed-out connect releases its slot" - its own, not another call's: a
+                          \* connect / accept call whose channel to the dispatcher is taken away fails with this error
+                          \* although the socket is alive
+                          <<"C13.ReleaseOnAbandon", r.res = "err" /\ Has(r, "err") /\ ~meta.cancelled, ~Has(r, "err") \/ r.err # "dispatcher dead">> })
                     /\ UNCHANGED <<sk, pairs>>
        ELSE IF r.ep \notin DOMAIN app \/ ~Live(app[r.ep]) THEN UNCHANGED <<app, eps, sk, pairs>> /\ NoJudge
        ELSE LET k == app[r.ep]
